@@ -379,6 +379,7 @@ package wire
 //@ define paramEv(e event, pname string, variadic bool) = evn(e) == 2 && eva(e, 0) == box(pname) && evfmt(e) == (variadic ? "%s ...%s" : "%s %s")
 //@ define sigLine(e event, sig *types.Signature) = evn(e) == 1 && evfmt(e) == (sigCleanup(sig) ? (sigErr(sig) ? ") (%s, func(), error) {\n" : ") (%s, func()) {\n") : (sigErr(sig) ? ") (%s, error) {\n" : ") %s {\n"))
 //@ func injectPass
+//@   atcall disambiguate requires [C01] a != "" && a != "_"
 //@   ensures [C01] !ig.discard ==> forall j :: 1 <= j && j < sig.Params().Len() ==> OUTEV[&ig.g.buf][pos2((old(OUTLEN[&ig.g.buf]) + (doc != nil ? len(doc.List) : 0)), j)] == ev(", ")
 //@   loop 2 invariant [C01] !ig.discard ==> forall j :: 1 <= j && j < i ==> OUTEV[&ig.g.buf][pos2((old(OUTLEN[&ig.g.buf]) + (doc != nil ? len(doc.List) : 0)), j)] == ev(", ")
 //@   loop 3 invariant [C01] !ig.discard ==> forall j :: 1 <= j && j < sig.Params().Len() ==> OUTEV[&ig.g.buf][pos2((old(OUTLEN[&ig.g.buf]) + (doc != nil ? len(doc.List) : 0)), j)] == ev(", ")
